@@ -1,6 +1,8 @@
 """C16 - mesopore size distributions conserve volume and follow the Kelvin equation.
 
-proof phase   : Props/C16.v: widths = 2(r_K + t) and increasing, zero-thickness volumes = successive increments (telescoping sum),
+proof phase   : Props/C16.v: the three recurrences GENERATED from psd_meso.py (tools/py2v_psdmeso.py -> Gen/PsdMesoGen.v, fail-closed) are EQUAL to
+                the hand-written list model (Charact/PsdMesoTie.v, by conversion); the generated tables of psd_mesoporous' Kelvin inputs and of
+                the module's process-wide state are the documented ones; widths = 2(r_K + t) and increasing, zero-thickness volumes = successive increments (telescoping sum),
                 distribution x width increment = volume, cumulative curve ends at the last volume (inductions over lists of any
                 length, all three recurrences); Kelvin equation per meniscus geometry, monotonicity, KJS offset, meniscus table,
                 monotone thickness equations over the GENERATED models_kelvin / models_thickness formulas.
@@ -24,7 +26,11 @@ from props import c14
 
 MANIFEST = dict(
     text="Machine-checked (Coq 8.16) theorems about a list model of the three recurrences of psd_meso.py (pygaps-DH for slit/cylinder/sphere, BJH, "
-         "Dollimore-Heal) with the thickness and Kelvin-radius arrays as arbitrary inputs: reported widths are 2(r_K+t) at the measured pressures "
+         "Dollimore-Heal) with the thickness and Kelvin-radius arrays as arbitrary inputs; the recurrences are ALSO translated from their source on every "
+         "run (vectorised numpy prelude as stencils over the reversed points, loop bodies as let-chains in source order, returned arrays; any statement the "
+         "translator does not know - e.g. a masked assignment to an array - aborts it) and the translation is PROVED equal to the list model for every carrier, "
+         "input and geometry string, so the theorems are theorems about the translated source; generated tables show that psd_mesoporous hands the Kelvin model "
+         "this call's temperature / molar mass / liquid density / surface tension and that no function of psd_meso.py writes to module-level state. Proved: reported widths are 2(r_K+t) at the measured pressures "
          "(all but the highest) and increase when t and r_K do; with zero thickness and positive Kelvin radii the pore volumes are exactly the "
          "successive changes of adsorbed volume and sum to the total change (induction carrying the running sums of each loop); distribution x "
          "width increment = pore volume; the cumulative curve ends at the last adsorbed volume; for lists of ANY length. Over the formulas GENERATED "
@@ -36,13 +42,15 @@ MANIFEST = dict(
          "all calls in one process), so a property remembered from an earlier call shows up as a Kelvin-equation / width disagreement. "
          "The single-step statement is proved as a corollary for zero thickness only (with a thickness model the thinning corrections of later "
          "steps are non-zero by construction); with thickness it is checked on the implementation as 'largest peak at the step'.",
-    note="Trusted: Coq kernel; Reals axioms; translator tools/py2v_charact.py (interval goals against the implementation); the hand-written recurrences "
+    note="Trusted: Coq kernel; Reals axioms; translators tools/py2v_charact.py (interval goals against the implementation) and tools/py2v_psdmeso.py (its reading "
+         "of the numpy idioms -diff, [:-1], [1:], [::-1], enumerate as stencils over neighbouring points; the generated functions are the ones executed against "
+         "the raw entry points); the hand-written wrapper psd_mesoporous (limits, cumulative curve) and recurrences "
          "(validated by the correspondence, 256-bit binary floating point inside Coq, tolerance 1e-7 relative / 1e-9 of the array scale); numpy "
          "vectorised arithmetic = element-wise arithmetic; adsorbate property reads are oracles.",
     technique="Coq proof (induction over data lists with loop invariants; real analysis over generated formulas); model execution inside Coq vs implementation")
 
 EXTRA_TARGETS = ['Charact/QExecPsd.vo']
-HEADER = c14.HEADER.replace('Charact.QExec.', 'Charact.PsdMeso Charact.QExec Charact.QExecPsd.')
+HEADER = c14.HEADER.replace('Charact.QExec.', 'Charact.PsdMeso Gen.PsdMesoGen Charact.QExec Charact.QExecPsd.')
 RGAS = 8.31446261815324
 ADS = dict(molar_mass=28.0134, saturation_pressure=101325.0, liquid_density=0.808, surface_tension=8.88, cross_sectional_area=0.162)
 ADS2 = dict(molar_mass=39.948, saturation_pressure=101325.0, liquid_density=1.3954, surface_tension=12.5, cross_sectional_area=0.142)
@@ -55,6 +63,55 @@ def custom_thickness(p):
     return 0.3 + 0.5 * p
 
 
+VKINDS = ['random', 'random', 'step', 'mixed', 'plateau', 'weak-then-step']
+
+
+def gen_volumes(rnd, kind, n, step_at):
+    """non-decreasing adsorbed volumes for n pressures.
+    random         : increments of comparable size (0, ~0.01, ~0.05)
+    step           : exactly flat except one condensation step
+    mixed          : every increment has its own magnitude, log-uniform over 12 decades (and some exact zeros)
+    plateau        : one or two condensation steps, NEARLY flat elsewhere (increments 1e-12 .. 1e-6 of the step)
+    weak-then-step : tiny uptake (1e-10 .. 1e-5 of the step per point) in front of one large condensation step, nearly flat after it
+    The whole curve is multiplied by an overall scale between 1e-6 and 100 in a third of the mixed-magnitude cases."""
+    v = []
+    cur = rnd.uniform(0, 0.2)
+    if kind in ('mixed', 'plateau', 'weak-then-step'):
+        cur = rnd.choice([0.0, cur, cur * 1e-6])
+    second = rnd.randrange(1, n - 1) if (kind == 'plateau' and rnd.random() < 0.5) else None
+    for i in range(n):
+        if kind == 'random':
+            cur += rnd.choice([0.0, rnd.uniform(0, 0.05), rnd.uniform(0, 0.01)])
+        elif kind == 'step':
+            if i == step_at:
+                cur += rnd.uniform(0.1, 0.5)
+        elif kind == 'mixed':
+            cur += rnd.choice([0.0] + [10 ** rnd.uniform(-13, -0.5)] * 5)
+        elif kind == 'plateau':
+            cur += rnd.uniform(0.1, 0.5) if i in (step_at, second) else rnd.choice([0.0] + [10 ** rnd.uniform(-12, -6)] * 4)
+        else:
+            cur += rnd.uniform(0.1, 0.5) if i == step_at else (10 ** rnd.uniform(-10, -5) if i < step_at else rnd.choice([0.0, 10 ** rnd.uniform(-12, -7)]))
+        v.append(cur)
+    if kind in ('mixed', 'plateau', 'weak-then-step') and rnd.random() < 0.33:
+        sc = 10 ** rnd.uniform(-6, 2)
+        v = [x * sc for x in v]
+    return v
+
+
+def gen_grid(rnd, n, edge):
+    """strictly increasing relative pressures in (0,1); edge: a fifth of the grids reach the ends of the domain
+    (1 - 1e-3 ... 1 - 1e-7 at the top, 1e-7 ... 1e-3 at the bottom)"""
+    p = c14.grid(rnd, n, 0.02, 0.995)
+    if edge:
+        if rnd.random() < 0.7:
+            ks = sorted(rnd.sample([2.6, 3.0, 3.3, 3.7, 4.0, 4.5, 5.0, 6.0, 7.0], rnd.randint(1, 4)))
+            p = [x for x in p if x < 0.99] + [1 - 10 ** (-k) for k in ks]
+        if rnd.random() < 0.4:
+            ks = sorted(rnd.sample([3.0, 4.0, 5.0, 6.0, 7.0], rnd.randint(1, 3)), reverse=True)
+            p = [10 ** (-k) for k in ks] + [x for x in p if x > 2e-3]
+    return sorted(set(float(x) for x in p))
+
+
 def gen_cases(tier, seed):
     rnd = random.Random(seed)
     n_cases = 220 if tier == 'quick' else 4000
@@ -62,25 +119,21 @@ def gen_cases(tier, seed):
     cases = []
     for k in range(n_cases):
         n = rnd.randint(5, nmax)
-        p = c14.grid(rnd, n, 0.02, 0.995)
-        v = []
-        cur = rnd.uniform(0, 0.2)
-        kind = rnd.choice(['random', 'random', 'random', 'step'])
+        kind = rnd.choice(VKINDS)
+        edge = kind != 'step' and rnd.random() < 0.2
+        p = gen_grid(rnd, n, edge)
         step_at = rnd.randrange(1, len(p) - 1)
-        for i in range(len(p)):
-            if kind == 'random':
-                cur += rnd.choice([0.0, rnd.uniform(0, 0.05), rnd.uniform(0, 0.01)])
-            elif i == step_at:
-                cur += rnd.uniform(0.1, 0.5)
-            v.append(cur)
+        v = gen_volumes(rnd, kind, len(p), step_at)
         method = rnd.choice(METHODS)
         geom = rnd.choice(['slit', 'cylinder', 'sphere']) if method == 'pygaps-DH' else rnd.choice(['cylinder'] * 6 + ['slit'])
         branch = rnd.choice(['ads', 'des'])
         men = rnd.choice([None, None, None, 'hemicylindrical', 'cylindrical', 'hemispherical'])
-        tm = rnd.choice(TMODELS + ['zero thickness'])
+        tm = rnd.choice(TMODELS + ['zero thickness'] * (1 if kind in ('random', 'step') else 3))
         km = 'Kelvin-KJS' if rnd.random() < 0.12 else 'Kelvin'
         if kind == 'step':
             limits, lk = (None, None), 'step'
+        elif edge and rnd.random() < 0.6:
+            limits, lk = rnd.choice([(None, None), (rnd.uniform(0.0, 0.5), None), (None, 1.0), (0, 0)]), 'edge'     # the points at the ends of the domain are used
         else:
             limits, lk = c14.pick_limits(rnd, p)
             if limits is None:
@@ -92,7 +145,14 @@ def gen_cases(tier, seed):
         # name the SAME adsorbate ('verif_c16'): either a fresh Adsorbate object per call or one shared object whose properties are edited
         # between the calls - so a value remembered from an earlier call (per name, per (name, temperature), per object) is a stale one
         r = rnd.random()
-        if r < 0.3:
+        T = rnd.choice([77.355, 87.3])
+        carrier = rnd.choice(['fresh', 'fresh', 'edited'])
+        if r < 0.12:
+            # the shipped nitrogen (thermodynamic backend: density and surface tension depend on T) at several temperatures in one process; the
+            # property values the Kelvin equation is judged with are read in a FRESH process (reference_props), one temperature per read
+            T = rnd.choice(BACKEND_T)
+            ads, props, carrier = 'N', dict(reference_props()[repr(T)], saturation_pressure=None, cross_sectional_area=0.162), 'backend'
+        elif r < 0.3:
             ads, props = 'A', dict(ADS)
         elif r < 0.45:
             ads, props = 'B', dict(ADS2)
@@ -100,12 +160,44 @@ def gen_cases(tier, seed):
             ads, props = 'R', dict(molar_mass=round(rnd.uniform(2, 150), 4), liquid_density=round(10 ** rnd.uniform(-0.5, 0.5), 4),
                                    surface_tension=round(10 ** rnd.uniform(0, 1.9), 3), saturation_pressure=101325.0, cross_sectional_area=0.162)
         cases.append(dict(method=method, geom=geom, branch=branch, men=men, tm=tm, km=km, p=p, v=v, limits=limits, lkind=lk, kind=kind, entry=entry,
-                          step_at=step_at, ads=ads, props=props, carrier=rnd.choice(['fresh', 'fresh', 'edited']), T=rnd.choice([77.355, 87.3])))
+                          step_at=step_at, ads=ads, props=props, carrier=carrier, T=T))
     return cases
 
 
 def ads_props(c):
     return c['props']
+
+
+BACKEND_T = [70.0, 77.355, 87.3, 100.0, 110.0]
+_REF = {}
+
+
+def child_props():
+    """(child process) nitrogen's properties, one fresh Adsorbate state per temperature"""
+    import json
+    import logging
+    logging.disable(logging.CRITICAL)
+    import pygaps
+    out = {}
+    for T in BACKEND_T:
+        a = pygaps.Adsorbate('verif_c16_ref_%s' % T, backend_name='nitrogen')
+        out[repr(T)] = dict(molar_mass=float(a.molar_mass()), liquid_density=float(a.liquid_density(T)), surface_tension=float(a.surface_tension(T)))
+    print('C16REF ' + json.dumps(out))
+
+
+def reference_props():
+    """nitrogen's molar mass / liquid density / surface tension at the BACKEND_T temperatures, read in a fresh process"""
+    if not _REF:
+        import json
+        import subprocess
+        import sys
+        r = subprocess.run([sys.executable, '-c', 'from props import c16; c16.child_props()'], capture_output=True, text=True, timeout=300)
+        for line in r.stdout.split('\n'):
+            if line.startswith('C16REF '):
+                _REF.update(json.loads(line[7:]))
+        if not _REF:
+            raise RuntimeError('no reference properties from the child process: ' + (r.stderr or r.stdout)[-300:])
+    return _REF
 
 
 ADS_NAME = 'verif_c16'
@@ -152,7 +244,10 @@ def make_iso(c):
         vv = [x * 0.9 for x in v] + list(v[::-1])
     iso = pygaps.PointIsotherm(pressure=pp, loading=vv, material='verif_c16', adsorbate=name, temperature=c['T'], pressure_mode='relative',
                                loading_basis='volume_liquid', loading_unit='cm3', material_basis='mass', material_unit='g')
-    iso.adsorbate = ads_object(c)
+    if c.get('carrier') == 'backend':
+        iso.adsorbate = pygaps.Adsorbate.find('nitrogen')       # the shared, registered object with its CoolProp state
+    else:
+        iso.adsorbate = ads_object(c)
     return iso
 
 
@@ -195,13 +290,17 @@ def coq_term(c, o, t, k):
     ok = o['oc'] == 'Ok'
     if t is None:
         t, k = [0.0] * len(c['p']), [1.0] * len(c['p'])
-    sc = lambda xs: zpair(1e-9 * max([abs(x) for x in xs] + [1e-300]))
+    # absolute slack beside the 1e-7 relative one: 1e-9 of the array scale (rounding of the recurrences); with the zero model the computation is
+    # exact up to the rounding of one subtraction, so 1e-13 of the scale - a step of 1e-12 of the top volume must come out
+    atol = 1e-13 if c['tm'] == 'zero thickness' else 1e-9
+    sc = lambda xs: zpair(atol * max([abs(x) for x in xs] + [1e-300]))
     if c['entry'] == 'iso':
         return '(psd_case 1 10000000 "%s"%%string "%s"%%string %s %s %s %s %s %d %s %s %s %s %s %s %s %s)' % (
             c['method'], c['geom'], zlist(c['p']), zlist(c['v']), zlist(t), zlist(k), c14.lim_args(c['limits']), oc,
             zlist(o.get('pore_widths', [])), zlist(o.get('pore_areas', [])), zlist(o.get('pore_volumes', [])), zlist(o.get('pore_distribution', [])),
             zlist(o.get('cumul', [])), sc(o.get('pore_volumes', []) + c['v']), sc(o.get('pore_areas', [])), sc(o.get('pore_distribution', [])))
-    fn = {'pygaps-DH': 'psd_pygapsdh', 'BJH': 'psd_bjh', 'DH': 'psd_dollimore_heal'}[c['method']]
+    # raw entry: the functions GENERATED from the source (Gen/PsdMesoGen.v; proved equal to the hand-written ones in Charact/PsdMesoTie.v)
+    fn = {'pygaps-DH': 'psd_pygapsdh_gen', 'BJH': 'psd_bjh_gen', 'DH': 'psd_dollimore_heal_gen'}[c['method']]
     return ('(match %s DNum (mkfl %s) (mkfl %s) (mkfl %s) "%s"%%string with Err e => (exn_code e, b2z (%d =? exn_code e), 0, 0) | Ok r => '
             '(0, b2z ((%d =? 0) && all_close 1 10000000 (p_widths r) %s && all_close_ra 1 10000000 (flq %s) (p_areas r) %s && '
             'all_close_ra 1 10000000 (flq %s) (p_volumes r) %s && all_close_ra 1 10000000 (flq %s) (p_dist r) %s), 0, %d) end)') % (
@@ -261,16 +360,23 @@ def judge(c, o, t, k, fail):
     g = GFAC[meniscus_of(c)]
     for i in range(m):
         if c['km'] == 'Kelvin':
-            lhs = kw[i] * math.log(1 / pw[i]) * g * RGAS * c['T']
+            lhs = kw[i] * (-math.log(pw[i])) * g * RGAS * c['T']       # ln(1/p) = -ln p; 1/p would round away the last digits near p = 1
         else:
-            lhs = (kw[i] - 0.3) * math.log(1 / pw[i]) * RGAS * c['T']
+            lhs = (kw[i] - 0.3) * (-math.log(pw[i])) * RGAS * c['T']
         if rel(lhs, 2 * ap['surface_tension'] * ap['molar_mass'] / ap['liquid_density']) > 1e-9:
             fail('kelvin', 'Kelvin radius %r at p=%r violates the Kelvin equation (geometry factor %r)' % (kw[i], pw[i], g))
             break
     if c['tm'] == 'zero thickness':
+        # "exactly the successive changes": with t = 0 every ratio factor is 1 and every thinning correction 0, so each pore volume is the
+        # difference of two neighbouring volumes up to their rounding (1e-12 of the larger neighbour) - however small the step is beside the others
         dv = [vw[i + 1] - vw[i] for i in range(m - 1)]
-        if any(abs(PV[i] - dv[i]) > 1e-9 * scale for i in range(m - 1)) or abs(sum(PV) - (vw[-1] - vw[0])) > 1e-9 * scale:
-            fail('conservation', 'zero-thickness pore volumes are not the successive changes of adsorbed volume (sum %r vs %r)' % (sum(PV), vw[-1] - vw[0]))
+        bad = [i for i in range(m - 1) if not abs(PV[i] - dv[i]) <= 1e-12 * max(abs(vw[i]), abs(vw[i + 1]))]
+        if bad:
+            i = bad[0]
+            fail('conservation', 'zero-thickness pore volumes are not the successive changes of adsorbed volume: %d of %d steps differ, e.g. step %d: V goes %r -> %r '
+                                 '(change %r, %.3g of the top volume) but the pore volume is %r' % (len(bad), m - 1, i, vw[i], vw[i + 1], dv[i], dv[i] / scale, PV[i]))
+        elif not abs(math.fsum(PV) - (vw[-1] - vw[0])) <= 1e-12 * scale:
+            fail('conservation', 'zero-thickness pore volumes sum to %r, the total change of adsorbed volume is %r' % (math.fsum(PV), vw[-1] - vw[0]))
     dscale = max(abs(x) for x in PV) + 1e-300
     if any(abs(D[i] * (wfull[i + 1] - wfull[i]) - PV[i]) > 1e-9 * dscale for i in range(m - 1)):
         fail('distribution', 'distribution x width increment differs from the pore volumes')
@@ -278,10 +384,16 @@ def judge(c, o, t, k, fail):
         fail('cumulative', 'cumulative curve ends at %r, adsorbed volume at the highest pressure used is %r' % (o['cumul'][-1], vw[-1]))
     if c['kind'] == 'step' and a <= c['step_at'] - 1 and c['step_at'] <= b:
         j = c['step_at'] - 1 - a      # the interval [p_j, p_j+1] holds the step
-        peak = max(range(m - 1), key=lambda i: PV[i])
         nonzero = [i for i in range(m - 1) if abs(PV[i]) > 1e-9 * scale]
-        if peak != j or (c['tm'] == 'zero thickness' and nonzero != [j]):
-            fail('single-step', 'a single condensation step between points %d and %d gives its largest volume at interval %d (non-zero: %r)' % (j, j + 1, peak, nonzero[:6]))
+        step = vw[j + 1] - vw[j]
+        # the recurrences run from the highest pressure down: above the step nothing has desorbed and no pore has been emptied, so those volumes
+        # are zero and the first population is the one at the step, at least the step itself for pygaps-DH (ratio factor >= 1); with the zero model it
+        # is the only one. BELOW the step the thinning corrections of a non-zero thickness model are not constrained by the property (for
+        # Kelvin radii far below the layer thickness they oscillate and grow).
+        if [i for i in nonzero if i > j] or not PV[j] > 0 or (c['method'] == 'pygaps-DH' and not PV[j] >= step * (1 - 1e-9)) or \
+                (c['tm'] == 'zero thickness' and nonzero != [j]):
+            fail('single-step', 'a single condensation step of %r between points %d and %d: pore volume there %r, non-zero pore volumes at intervals %r' % (
+                step, j, j + 1, PV[j], nonzero[:6]))
         elif rel(W[j], wfull[j]) > 1e-10:
             fail('single-step', 'peak width is not the Kelvin-predicted width')
     return True
@@ -336,13 +448,18 @@ def explore(rep, tier, seed):
 
         def fail(clause, what, c=c, o=o, ci=ci):
             # the calls of one run share a process: an earlier call with the same adsorbate name and temperature but other properties is part of the input
-            prior = next((cases[j] for j in range(ci) if cases[j]['entry'] == 'iso' and cases[j]['T'] == c['T'] and cases[j]['props'] != c['props']
-                          and outs[j]['oc'] == 'Ok'), None) if c['entry'] == 'iso' else None
+            prior = next((cases[j] for j in range(ci) if cases[j]['entry'] == 'iso' and cases[j]['ads'] != 'N' and cases[j]['T'] == c['T'] and cases[j]['props'] != c['props']
+                          and outs[j]['oc'] == 'Ok'), None) if (c['entry'] == 'iso' and c['ads'] != 'N' and clause in ('kelvin', 'widths')) else None
+            if c['entry'] == 'iso' and c['ads'] == 'N' and clause in ('kelvin', 'widths'):
+                what += ' [shipped nitrogen at %s K; earlier psd_mesoporous calls in this process used it at %s K; property values from a fresh process: %r]' % (
+                    c['T'], sorted({cases[j]['T'] for j in range(ci) if cases[j]['entry'] == 'iso' and cases[j]['ads'] == 'N'}),
+                    {k: c['props'][k] for k in ('molar_mass', 'liquid_density', 'surface_tension')})
             rep.failure(classify(c, clause, o), what + ('' if prior is None else ' [after an earlier psd_mesoporous call in this process with the same adsorbate name and '
                                                         'temperature but properties %r; this call: %r]' % (
                                                             {k: prior['props'][k] for k in ('molar_mass', 'liquid_density', 'surface_tension')},
                                                             {k: c['props'][k] for k in ('molar_mass', 'liquid_density', 'surface_tension')})),
-                        {'case': dict(c), 'prior': prior, 'clause': clause, 'outcome': {kk: (vv if not isinstance(vv, list) else vv[:6]) for kk, vv in o.items()}})
+                        {'case': dict(c), 'prior': prior, 'clause': clause,
+                         'earlier_backend_temperatures': [cases[j]['T'] for j in range(ci) if cases[j]['entry'] == 'iso' and cases[j]['ads'] == 'N'] if c['ads'] == 'N' else [], 'outcome': {kk: (vv if not isinstance(vv, list) else vv[:6]) for kk, vv in o.items()}})
         if model is not None and t is not None:
             code, agree, mn, mx = model[ci]
             ok = agree == 1 and (o['oc'] != 'Ok' or (mn, mx) == tuple(o['win']))
@@ -372,7 +489,11 @@ def explore(rep, tier, seed):
     rep.cov['timing_s'] = {'implementation': round(t1 - t0, 1), 'coq_model_evaluation': round(t2 - t1, 1), 'oracle_and_interval_goals': round(time.time() - t2, 1)}
     rep.cov['evaluations'] = rep.cov.get('evaluations', 0) + len(cases)
     rep.cov['distinct_nontrivial'] = len(nontrivial)
-    rep.cov['rule'] = ('cases = random strictly increasing grids of 5-80 relative pressures with non-decreasing volumes (or one step), method x pore geometry x meniscus x '
+    rep.cov['rule'] = ('cases = random strictly increasing grids of 5-80 relative pressures (a fifth of them reaching 1e-7 / 1 - 1e-7, with open limits so that those points are used) with '
+                       'non-decreasing volumes of six shapes: increments of comparable size, one exact step, increments log-uniform over 12 decades, one or two steps on a NEARLY flat curve '
+                       '(increments 1e-12..1e-6 of the step), weak uptake in front of one large step, each optionally at an overall scale 1e-6..100; zero-thickness conservation is judged '
+                       'per step to 1e-12 of the neighbouring volumes, the model correspondence to 1e-13 of the array scale for the zero model; a tenth of the cases use the shipped nitrogen '
+                       '(thermodynamic backend) at five temperatures in the one process, judged with property values read in a fresh process; method x pore geometry x meniscus x '
                        'thickness model (Halsey, Harkins/Jura, zero, a callable) x Kelvin / Kelvin-KJS x branch x limits (default, random, on data points, one-sided, narrow), '
                        'isotherm and raw entry points; every case has its own adsorbate property set (two fixed, else random molar mass 2-150, density 0.3-3.2, surface tension '
                        '1-80) carried under ONE adsorbate name by a fresh object or by one shared object edited between the calls, all calls in one process at two temperatures; non-trivial = distinct (method, geometry, thickness, kelvin, branch, entry, limit kind, size) that returned a '
@@ -392,7 +513,11 @@ def explore(rep, tier, seed):
         c, o = cases[i], outs[i]
         rep.cov['samples'].append({'method': c['method'], 'geometry': c['geom'], 'thickness': c['tm'], 'n': len(c['p']), 'limits': c['limits'],
                                    'outcome': o['oc'], 'volumes': o.get('pore_volumes', [])[:3]})
+    rep.cov['volume_shapes'] = {}
+    for c in cases:
+        rep.cov['volume_shapes'][c['kind']] = rep.cov['volume_shapes'].get(c['kind'], 0) + 1
     rep.cov['trusted_base'] += ['translator tools/py2v_charact.py (interval goals against the implementation)',
+                                'translator tools/py2v_psdmeso.py (numpy idioms read as stencils; generated functions executed against the raw entry points, proved equal to the list model)',
                                 'hand-written recurrences Charact/PsdMeso.v (validated by the correspondence; 256-bit floating point inside Coq)',
                                 'adsorbate property reads are oracles', 'carrier: theorems over RNum, execution over a 256-bit float record of the same Num interface']
     rep.assumptions += ['IEEE rounding excluded (tolerances above)', 'a data point exactly equal to a limit is not judged by the oracle',
@@ -410,6 +535,9 @@ def replay(d):
         if prior.get('limits') is not None:
             prior['limits'] = tuple(prior['limits'])
         print('earlier call in the same process (same adsorbate name and temperature, properties %r): %s' % (prior['props'], run_impl(prior)['oc']))
+    for T in d['replay'].get('earlier_backend_temperatures', []):
+        warm = dict(c, T=T, p=[0.2, 0.4, 0.6, 0.8, 0.9], v=[0.1, 0.2, 0.3, 0.4, 0.5], limits=(None, None), entry='iso', branch='ads')
+        print('earlier call in the same process: psd_mesoporous on shipped nitrogen at %s K: %s' % (T, run_impl(warm)['oc']))
     o = run_impl(c)
     t, k = arrays(c)
     print('case:', {kk: (vv if not isinstance(vv, list) else '%d values' % len(vv)) for kk, vv in c.items()})
